@@ -227,7 +227,10 @@ func (e *env) listening() int64 {
 	return n
 }
 
-func (e *env) startWaiter(i int, target uint32, short bool, park bool) {
+// startWaiter: kind L (WaitMasterchainSeqno, long timeout), S (short timer), P (parked at the entry of its select),
+// M (the wait inside the public BestMasterchainClient: subscribe(1) when the best head is still 0; no timer, no loop).
+func (e *env) startWaiter(i int, target uint32, kind string) {
+	short, park := kind == "S", kind == "P"
 	w := &waiter{ctx: newWaitCtx(), target: target, short: short, parked: park, started: time.Now()}
 	w.ctx.hold.Store(park)
 	e.ws[i] = w
@@ -244,7 +247,11 @@ func (e *env) startWaiter(i int, target uint32, short bool, park bool) {
 				w.returned.Store(true)
 			}
 		}()
-		w.err = e.p.WaitMasterchainSeqno(w.ctx, target, to)
+		if kind == "M" {
+			_, _, w.err = e.p.BestMasterchainClient(w.ctx)
+		} else {
+			w.err = e.p.WaitMasterchainSeqno(w.ctx, target, to)
+		}
 		w.returned.Store(true)
 	}()
 	if !await(func() bool { return w.ctx.evals.Load() >= 1 || w.returned.Load() }) {
@@ -499,7 +506,7 @@ func runScript(s script, shortTO time.Duration) (obs []string, hung string, anom
 		f := strings.Split(st, ":")
 		switch f[0] {
 		case "w":
-			e.startWaiter(atoi(f[1]), u32(f[2]), f[3] == "S", f[3] == "P")
+			e.startWaiter(atoi(f[1]), u32(f[2]), f[3])
 		case "r":
 			e.unpark(atoi(f[1]))
 		case "u":
@@ -1002,6 +1009,10 @@ func genWait(g *h.G, out func(op string, args ...string)) {
 	emit("best-ping", "5", "0", "w:0:8:P", "u:0:8", "u:0:9", "u:0:10", "r:0")
 	emit("best-ping", "5", "0", "w:0:3:P", "u:0:6", "r:0")
 	emit("first-working", "5/5", "0", "w:0:7:P", "w:1:7:L", "u:0:6", "u:0:7", "c:0", "r:0")
+	// the wait inside BestMasterchainClient (best head still 0)
+	emit("best-ping", "0/0", "0", "w:0:1:M", "u:1:1", "u:0:1")
+	emit("best-ping", "0/2", "0", "w:0:1:M", "w:1:1:M", "c:0", "t:2:1.1", "u:1:3")
+	emit("best-ping", "4", "0", "w:0:1:M")
 	n := g.Scale(400, 4000)
 	for k := 0; k < n; k++ {
 		nc := 1 + g.Rng.Intn(3)
@@ -1040,16 +1051,18 @@ func genWait(g *h.G, out func(op string, args ...string)) {
 					}
 				}
 				kind := "L"
+				tg := int(mx) + g.Rng.Intn(5) - 1
+				if tg < 0 {
+					tg = 0
+				}
 				if shorts < 2 && pendingShort < 0 && g.Rng.Intn(5) == 0 {
 					kind, pendingShort = "S", nw
 					shorts++
 				} else if g.Rng.Intn(4) == 0 {
 					kind = "P"
 					parkedW = append(parkedW, nw)
-				}
-				tg := int(mx) + g.Rng.Intn(5) - 1
-				if tg < 0 {
-					tg = 0
+				} else if g.Rng.Intn(6) == 0 {
+					kind, tg = "M", 1 // BestMasterchainClient waits for the first head (seqno >= 1) of the best member
 				}
 				args = append(args, fmt.Sprintf("w:%d:%d:%s", nw, tg, kind))
 				nw++
